@@ -107,3 +107,52 @@ def run(ck, prog, ctx):
                 ok = ps == {1, 2} and adds and not others
                 ck.ob("SELECT", "average/update", bool(ok), "the mean's numerator is %s" % ("the sum of both arguments" if ok else "not a plain sum of both arguments (params %s)" % sorted(ps)), where=fb.where(d["line"]))
     ck.floor("SELECT", "selection sites", n, 4)
+
+    # ---- size bookkeeping: the size of a merge is size(first node) + size(second node)
+    ck.rule("ROLE", "index roles in the cluster-size bookkeeping (DESIGN 3.4)")
+    pvn = Prov(prog, inline=False)
+    sc = prog.body(LINK + "size_of_cluster")
+    if sc is None:
+        ck.undecided("ROLE", "size/indices", "private helper size_of_cluster not found")
+    else:
+        gets = [(bi, t) for bi, t in sc.calls() if (t.callee.res or "").endswith("ClusterVec::get")]
+        guards = []
+        for pos, st in sc.stmts():
+            if st.k == "assign" and st.rv["k"] == "bin" and st.rv["op"] in ("Lt", "Ge", "Le", "Gt"):
+                la, ra = pvn.of_operand(sc, st.rv["l"]), pvn.of_operand(sc, st.rv["r"])
+                if "initial_len" in {a[2] for a in ra if a[0] == "field"} and params_of(la, sc.id) - {1}:
+                    guards.append((st.place.local, params_of(la, sc.id) - {1}, st.rv["op"], pos))
+        used = []
+        for bi, t in gets:
+            P = params_of(pvn.of_operand(sc, t.args[1]), sc.id) - {1}
+            # the guard that sends this lookup to the "is an intermediate cluster" side
+            gp = None
+            for gl, Q, op, pos in guards:
+                for sbi in sorted(sc.reach):
+                    x = sc.blocks[sbi].term
+                    if x.k == "switch" and x.discr.place is not None and x.discr.place.local == gl:
+                        for tg in x.successors():
+                            if sc.edge_dominates((sbi, tg), bi):
+                                gp = Q
+            used.append(P)
+            ck.ob("ROLE", "size/lookup/%d" % len(used), len(P) == 1 and gp == P, "size_of_cluster looks up the cluster of `%s` on the branch that tested `%s`" % ("/".join(sc.local_name(p) for p in P) or "?", "/".join(sc.local_name(p) for p in (gp or ())) or "?"), where=sc.where(t.line))
+        if len(used) == 2:
+            ck.ob("ROLE", "size/both", used[0] != used[1] and used[0] | used[1] == {2, 3}, "the two lookups use %s and %s (expected idx1 and idx2)" % (sorted(sc.local_name(p) for p in used[0]), sorted(sc.local_name(p) for p in used[1])), where=sc.where())
+        else:
+            ck.undecided("ROLE", "size/both", "expected two cluster lookups, found %d" % len(used), where=sc.where())
+        adds = [st for _, st in sc.stmts() if st.k == "assign" and st.rv["k"] == "bin" and st.rv["op"].startswith("Add")]
+        ck.ob("ROLE", "size/sum", len(adds) >= 1, "the size of a merge is the SUM of the two node sizes", where=sc.where())
+    nc = prog.body(LINK + "new_cluster")
+    if nc is not None:
+        for bi, t in nc.calls():
+            if (t.callee.res or "").endswith("cluster::Cluster::new"):
+                a = [pvn.of_operand(nc, x) for x in t.args]
+                k0 = {tuple(e[1] for e in at[3] if e[0] == "f") for at in a[0] if at[0] == "param" and at[2] == 2}
+                k1 = {tuple(e[1] for e in at[3] if e[0] == "f") for at in a[1] if at[0] == "param" and at[2] == 2}
+                dist = params_of(a[2], nc.id)
+                size_call = any(at[0] == "call" and at[1].endswith("size_of_cluster") for at in a[3])
+                ck.ob("ROLE", "new_cluster/args", k0 == {("0",)} and k1 == {("1",)} and dist == {3} and size_call, "a merge is recorded as Cluster::new(key.%s, key.%s, %s, %s)" % ("/".join("".join(x) for x in k0), "/".join("".join(x) for x in k1), "dist" if dist == {3} else "?", "size_of_cluster(..)" if size_call else "?"), where=nc.where(t.line))
+            if (t.callee.res or "").endswith("size_of_cluster"):
+                a1 = {tuple(e[1] for e in at[3] if e[0] == "f") for at in pvn.of_operand(nc, t.args[1]) if at[0] == "param" and at[2] == 2}
+                a2 = {tuple(e[1] for e in at[3] if e[0] == "f") for at in pvn.of_operand(nc, t.args[2]) if at[0] == "param" and at[2] == 2}
+                ck.ob("ROLE", "new_cluster/size-args", a1 == {("0",)} and a2 == {("1",)}, "the size is computed for (key.0, key.1)", where=nc.where(t.line))
